@@ -24,14 +24,15 @@ long double P(double a, double b) { return static_cast<long double>(a) * static_
 long double P(double a, double b, double d) { return static_cast<long double>(a) * static_cast<long double>(b) * static_cast<long double>(d); }
 }  // namespace
 
-// ================================================================== copy / transpose / toVVdouble
-LAW(L_copy_transpose, RC, 3000, 100000, 140, NTRULE) {
+// ================================================================== copy / transpose / toVVdouble / storage conversion / row(), col()
+LAW(L_copy_transpose, RC, 8000, 250000, 140, NTRULE) {
   bool integer = genInteger(c);
-  int fn = static_cast<int>(c.below(3));  // 0 copy, 1 transpose, 2 toVVdouble
+  int fn = static_cast<int>(c.below(4));  // 0 copy, 1 transpose, 2 toVVdouble + row()/col(), 3 converting constructor / assignment
   bool abstractCall = c.flag();           // instantiate the template for the abstract interface instead of the concrete classes
   Op A = genOp(c, genDim(c), genDim(c), integer);
   OutSpec os = genOut(c);
-  c.desc << (fn == 0 ? "copy " : fn == 1 ? "transpose " : "toVVdouble ") << (abstractCall ? "(abstract) " : "") << show(A) << " " << show(os);
+  static const char* FN[] = {"copy ", "transpose ", "toVVdouble/row/col ", "convert "};
+  c.desc << FN[fn] << (abstractCall ? "(abstract) " : "") << show(A) << " " << show(os);
   c.nt(A.m.degenerate() || os.mode != 1 || mixed({A.k[0], os.k[0]}));
   Ref ref = fn == 1 ? Ref(A.m.c, A.m.r) : refOf(A.m);
   if (fn == 1) for (size_t i = 0; i < A.m.r; ++i) for (size_t j = 0; j < A.m.c; ++j) ref.set(j, i, A.m(i, j));
@@ -45,7 +46,29 @@ LAW(L_copy_transpose, RC, 3000, 100000, 140, NTRULE) {
       for (size_t i = 0; i < A.m.r; ++i) {
         CHECK(vv[i].size() == A.m.c, "toVVdouble: row " << i << " has " << vv[i].size() << " entries for " << A.m.c << " columns");
         for (size_t j = 0; j < A.m.c; ++j) CHECK(sameD(vv[i][j], A.m(i, j)), "toVVdouble: entry (" << i << "," << j << ")");
+        vector<double> rw = a->row(i);
+        CHECK(rw.size() == A.m.c, "row(" << i << ") has " << rw.size() << " entries for " << A.m.c << " columns");
+        for (size_t j = 0; j < A.m.c; ++j) CHECK(sameD(rw[j], A.m(i, j)), "row(" << i << ")[" << j << "]");
       }
+      for (size_t j = 0; j < A.m.c; ++j) {
+        vector<double> cl = a->col(j);
+        CHECK(cl.size() == A.m.r, "col(" << j << ") has " << cl.size() << " entries for " << A.m.r << " rows");
+        for (size_t i = 0; i < A.m.r; ++i) CHECK(sameD(cl[i], A.m(i, j)), "col(" << j << ")[" << i << "]");
+      }
+    } else if (fn == 3) {
+      // converting constructor and assignment from the abstract interface, into storage os.k[w]
+      unique_ptr<MX> O1, O2 = makeOut(os, w, ref.r, ref.c);
+      switch (os.k[w]) {
+        case 0: O1.reset(new RowM(*a)); static_cast<RowM&>(*O2) = *a; break;
+        case 1: O1.reset(new ColM(*a)); static_cast<ColM&>(*O2) = *a; break;
+        default: O1.reset(new LinM(*a)); static_cast<LinM&>(*O2) = *a; break;
+      }
+      cmpRef(c, "converting constructor", *O1, os.k[w], ref, true);
+      cmpRef(c, "converting assignment", *O2, os.k[w], ref, true);
+      unique_ptr<MX> O3(dynamic_cast<MX*>(a->clone()));
+      CHECK(O3 != nullptr, "clone() is not a matrix");
+      cmpRef(c, "clone", *O3, A.k[w], ref, true);
+      res[w] = snap(*O1);
     } else {
       auto O = makeOut(os, w, ref.r, ref.c);
       if (abstractCall) { if (fn == 0) MatrixTools::copy(*a, *O); else MatrixTools::transpose(*a, *O); }
@@ -59,7 +82,7 @@ LAW(L_copy_transpose, RC, 3000, 100000, 140, NTRULE) {
 }
 
 // ================================================================== getId / diag (3 forms)
-LAW(L_getId_diag, RC, 3000, 100000, 140, "n in {0,1}, output not pre-sized as the result, or diag() of a non-square matrix") {
+LAW(L_getId_diag, RC, 8000, 250000, 140, "n in {0,1}, output not pre-sized as the result, or diag() of a non-square matrix") {
   bool integer = genInteger(c);
   int fn = static_cast<int>(c.below(4));  // 0 getId, 1 diag(vector), 2 diag(x,n), 3 diag(matrix -> vector)
   OutSpec os = genOut(c);
@@ -103,7 +126,7 @@ LAW(L_getId_diag, RC, 3000, 100000, 140, "n in {0,1}, output not pre-sized as th
 }
 
 // ================================================================== fill / fillDiag / scale (in place)
-LAW(L_fill_scale, RC, 3000, 100000, 140, "a 0/1 dimension or non-square matrix") {
+LAW(L_fill_scale, RC, 8000, 250000, 140, "a 0/1 dimension or non-square matrix") {
   bool integer = genInteger(c);
   int fn = static_cast<int>(c.below(4));  // 0 fill, 1 fillDiag, 2 scale(a,b), 3 scale(a)
   Op A = genOp(c, genDim(c), genDim(c), integer);
@@ -135,7 +158,7 @@ LAW(L_fill_scale, RC, 3000, 100000, 140, "a 0/1 dimension or non-square matrix")
 }
 
 // ================================================================== mult(A,B)
-LAW(L_mult, RC, 4000, 150000, 260, NTRULE) {
+LAW(L_mult, RC, 8000, 250000, 260, NTRULE) {
   bool integer = genInteger(c);
   size_t r = genDim(c), k = genDim(c), cc = genDim(c);
   Op A = genOp(c, r, k, integer);
@@ -160,7 +183,7 @@ LAW(L_mult, RC, 4000, 150000, 260, NTRULE) {
 }
 
 // ================================================================== complex mult on (re,im) pairs
-LAW(L_mult_complex, RC, 3000, 100000, 460, NTRULE) {
+LAW(L_mult_complex, RC, 8000, 250000, 460, NTRULE) {
   bool integer = genInteger(c);
   size_t r = genDim(c), k = genDim(c), cc = genDim(c);
   Op A = genOp(c, r, k, integer);
@@ -196,7 +219,7 @@ LAW(L_mult_complex, RC, 3000, 100000, 460, NTRULE) {
 }
 
 // ================================================================== mult(A,D,B) with a diagonal middle factor
-LAW(L_mult_diag, RC, 3000, 100000, 280, NTRULE) {
+LAW(L_mult_diag, RC, 8000, 250000, 280, NTRULE) {
   bool integer = genInteger(c);
   size_t r = genDim(c), k = genDim(c), cc = genDim(c);
   Op A = genOp(c, r, k, integer);
@@ -224,7 +247,7 @@ LAW(L_mult_diag, RC, 3000, 100000, 280, NTRULE) {
 }
 
 // ================================================================== complex diagonal mult
-LAW(L_mult_cdiag, RC, 3000, 100000, 500, NTRULE) {
+LAW(L_mult_cdiag, RC, 8000, 250000, 500, NTRULE) {
   bool integer = genInteger(c);
   size_t r = genDim(c), k = genDim(c), cc = genDim(c);
   Op A = genOp(c, r, k, integer, 5);
@@ -267,7 +290,7 @@ LAW(L_mult_cdiag, RC, 3000, 100000, 500, NTRULE) {
 }
 
 // ================================================================== tridiagonal mult(A,D,U,L,B)
-LAW(L_mult_tridiag, RC, 4000, 150000, 300, NTRULE " (inner dimension 1 and 2 forced often)") {
+LAW(L_mult_tridiag, RC, 8000, 250000, 300, NTRULE " (inner dimension 1 and 2 forced often)") {
   bool integer = genInteger(c);
   size_t r = genDim(c), cc = genDim(c);
   size_t k; switch (c.weighted({3, 3, 1, 5})) { case 0: k = 1; break; case 1: k = 2; break; case 2: k = 0; break; default: k = static_cast<size_t>(c.irange(3, 7)); }
@@ -305,7 +328,7 @@ LAW(L_mult_tridiag, RC, 4000, 150000, 300, NTRULE " (inner dimension 1 and 2 for
 }
 
 // ================================================================== add(A,B), add(A,x,B)
-LAW(L_add, RC, 4000, 150000, 260, NTRULE) {
+LAW(L_add, RC, 8000, 250000, 260, NTRULE) {
   bool integer = genInteger(c);
   bool scaled = c.flag();
   Op A = genOp(c, genDim(c), genDim(c), integer);
@@ -339,7 +362,7 @@ LAW(L_add, RC, 4000, 150000, 260, NTRULE) {
 }
 
 // ================================================================== pow(A,p) vs repeated product
-LAW(L_pow, RC, 3000, 100000, 140, "n in {0,1}, p in {0,1}, non-square operand, or output not pre-sized as the result") {
+LAW(L_pow, RC, 8000, 250000, 140, "n in {0,1}, p in {0,1}, non-square operand, or output not pre-sized as the result") {
   bool integer = genInteger(c);
   size_t n = genDim(c), m = c.below(6) == 5 ? otherDim(c, n) : n;
   int p = c.irange(0, 9);
@@ -375,7 +398,7 @@ LAW(L_pow, RC, 3000, 100000, 140, "n in {0,1}, p in {0,1}, non-square operand, o
 }
 
 // ================================================================== Taylor(A,p): the powers 0..p
-LAW(L_taylor, RC, 3000, 100000, 140, "n in {0,1}, p in {0,1}, non-square operand, or a pre-filled output vector") {
+LAW(L_taylor, RC, 8000, 250000, 140, "n in {0,1}, p in {0,1}, non-square operand, or a pre-filled output vector") {
   bool integer = genInteger(c);
   size_t n = genDim(c), m = c.below(6) == 5 ? otherDim(c, n) : n;
   int p = c.irange(0, 5);
@@ -420,7 +443,7 @@ LAW(L_taylor, RC, 3000, 100000, 140, "n in {0,1}, p in {0,1}, non-square operand
 }
 
 // ================================================================== covar
-LAW(L_covar, RC, 3000, 100000, 140, "r in {0,1} or n = 1 or mixed storage or output not pre-sized as the result") {
+LAW(L_covar, RC, 8000, 250000, 140, "r in {0,1} or n = 1 or mixed storage or output not pre-sized as the result") {
   bool integer = genInteger(c);
   size_t r = genDim(c), n = max<size_t>(1, genDim(c));
   Op A; A.k[0] = genKind(c);
@@ -451,7 +474,7 @@ LAW(L_covar, RC, 3000, 100000, 140, "r in {0,1} or n = 1 or mixed storage or out
 }
 
 // ================================================================== kroneckerMult (3 forms)
-LAW(L_kron, RC, 2000, 60000, 280, NTRULE) {
+LAW(L_kron, RC, 4000, 120000, 280, NTRULE) {
   bool integer = genInteger(c);
   int fn = static_cast<int>(c.below(3));  // 0 A (x) B, 1 A (x) v.I_dim, 2 A,B with replaced diagonals
   Op A = genOp(c, genDim(c), genDim(c), integer);
@@ -485,7 +508,7 @@ LAW(L_kron, RC, 2000, 60000, 280, NTRULE) {
 }
 
 // ================================================================== hadamardMult (matrix, row/column weights)
-LAW(L_hadamard, RC, 3000, 100000, 260, NTRULE) {
+LAW(L_hadamard, RC, 8000, 250000, 260, NTRULE) {
   bool integer = genInteger(c);
   int fn = static_cast<int>(c.below(3));  // 0 A o B, 1 row weights, 2 column weights
   Op A = genOp(c, genDim(c), genDim(c), integer);
@@ -518,7 +541,7 @@ LAW(L_hadamard, RC, 3000, 100000, 260, NTRULE) {
 }
 
 // ================================================================== complex hadamardMult
-LAW(L_hadamard_complex, RC, 2000, 60000, 460, NTRULE) {
+LAW(L_hadamard_complex, RC, 4000, 120000, 460, NTRULE) {
   bool integer = genInteger(c);
   Op A = genOp(c, genDim(c), genDim(c), integer);
   size_t br = A.m.r, bc = A.m.c;
@@ -553,7 +576,7 @@ LAW(L_hadamard_complex, RC, 2000, 60000, 460, NTRULE) {
 }
 
 // ================================================================== directSum(A,B)
-LAW(L_directsum, RC, 4000, 150000, 260, NTRULE) {
+LAW(L_directsum, RC, 8000, 250000, 260, NTRULE) {
   bool integer = genInteger(c);
   Op A = genOp(c, genDim(c), genDim(c), integer);
   size_t br = genDim(c), bc = c.below(2) == 0 ? br : genDim(c);  // square B half of the time
@@ -578,7 +601,7 @@ LAW(L_directsum, RC, 4000, 150000, 260, NTRULE) {
 }
 
 // ================================================================== directSum(vector of blocks)
-LAW(L_directsum_n, RC, 3000, 100000, 260, "some block with a 0/1 dimension or non-square, 0 or 1 blocks, mixed storage, or output not pre-sized as the result") {
+LAW(L_directsum_n, RC, 8000, 250000, 260, "some block with a 0/1 dimension or non-square, 0 or 1 blocks, mixed storage, or output not pre-sized as the result") {
   bool integer = genInteger(c);
   size_t nb = c.below(5);
   vector<Op> blocks; bool deg = nb <= 1, mix = false;
@@ -607,7 +630,7 @@ LAW(L_directsum_n, RC, 3000, 100000, 260, "some block with a 0/1 dimension or no
 // ================================================================== extrema, element sum
 // Weakest reading: any position holding the extreme value is accepted; for an empty matrix (no extremum exists) only
 // a normal return is demanded.
-LAW(L_extrema_sum, RC, 3000, 100000, 140, "a 0/1 dimension or non-square matrix, or a tied extremum") {
+LAW(L_extrema_sum, RC, 8000, 250000, 140, "a 0/1 dimension or non-square matrix, or a tied extremum") {
   bool integer = genInteger(c);
   int emax = c.flag() ? 9 : 1;
   Op A = genOp(c, genDim(c), genDim(c), integer, emax);
@@ -638,7 +661,7 @@ LAW(L_extrema_sum, RC, 3000, 100000, 140, "a 0/1 dimension or non-square matrix,
 }
 
 // ================================================================== isSquare / isSymmetric / operator== / equals
-LAW(L_predicates, RC, 3000, 100000, 260, "a 0/1 dimension or non-square matrix, or operands differing in exactly one entry or one dimension") {
+LAW(L_predicates, RC, 8000, 250000, 260, "a 0/1 dimension or non-square matrix, or operands differing in exactly one entry or one dimension") {
   Op A = genOp(c, genDim(c), genDim(c), true, 3);
   bool makeSym = c.flag();
   if (makeSym && A.m.r == A.m.c) for (size_t i = 0; i < A.m.r; ++i) for (size_t j = 0; j < i; ++j) A.m(i, j) = A.m(j, i);
